@@ -1,7 +1,7 @@
 (* C08: the coherence invariant is preserved by every request that is free of the
    known triggers, for every fault plan (proofs). *)
 From Coq Require Import ZArith NArith List Bool Lia.
-From Tinode Require Import Base.Util Pure.Acs Sys.Topic Sys.TopicTac Sys.TopicFrame Sys.TopicCoh Sys.TopicCohProofs.
+From Tinode Require Import Base.Util Pure.Acs Sys.Topic Sys.TopicTac Sys.TopicFrame Sys.TopicCohC08 Sys.TopicCohC08Proofs.
 Import ListNotations.
 Open Scope Z_scope.
 
